@@ -732,6 +732,33 @@ def r17_6(ctx):
     ctx.count('loader_functions_indexing_sections', n)
 
 
+LOAD_API = ('yr_rules_load_stream', 'yr_rules_load', 'yr_arena_load_stream', 'yr_rules_from_arena')
+
+
+def r17_7(ctx):
+    """the loader's verdict reaches whoever asked: at every call of a loading function,
+    in the library and in the command-line tools, the result is returned or tested
+    before the variable holding it is assigned again"""
+    n = 0
+    for f in ctx.prog.fns():
+        if not (f.file.startswith('libyara/') or f.file.startswith('cli/') or ctx.fixture):
+            continue
+        occ = {}
+        for c in f.calls():
+            if c.get('callee') not in LOAD_API:
+                continue
+            n += 1
+            occ[c['callee']] = occ.get(c['callee'], 0) + 1
+            ok, at = paths.error_not_lost(f, c)
+            ctx.ob('R17.7', '%s:%s%s:verdict-not-lost' % (
+                f.name, c['callee'], '#%d' % occ[c['callee']] if occ[c['callee']] > 1 else ''),
+                ok, f.loc(at if at is not None else c),
+                'the result of %s is returned or tested before anything replaces it' % c['callee'] if ok else
+                'the result of %s is overwritten (or dropped) here before it was tested: a rejected '
+                'file is treated as loaded' % c['callee'])
+    ctx.count('loader_call_sites', n)
+
+
 def run(ctx):
     r17_1(ctx)
     ctx.floor('R17.1', 3)
@@ -746,3 +773,5 @@ def run(ctx):
     ctx.floor('R17.5', 2)
     r17_6(ctx)
     ctx.floor('R17.6', 1)
+    r17_7(ctx)
+    ctx.floor('R17.7', 4)
